@@ -267,6 +267,36 @@ bool ecdsa_parse_der_strict(const B &der, Sig &out) {
     if (ok && ecdsa_der(out) != der) ok = false;
     return ok;
 }
+bool ecdsa_sign_nonce(const Ec *k, const B &digest, const B &ksel, Sig &out) {
+    CurveInfo &i = ci(k->c); const BIGNUM *d = EC_KEY_get0_private_key(k->k);
+    BIGNUM *kk = tobn(ksel), *nm1 = BN_dup(i.n), *r = BN_new(), *s = BN_new(), *e = bits2int(k->c, digest), *ki = NULL;
+    BN_sub_word(nm1, 1); BN_nnmod(kk, kk, nm1, ctx()); BN_add_word(kk, 1);
+    bool ok = false;
+    for (int tries = 0; tries < 64 && !ok; tries++, BN_add_word(kk, 1)) {
+        if (BN_cmp(kk, i.n) >= 0) BN_set_word(kk, 1);
+        EC_POINT *R = EC_POINT_new(i.g); EC_POINT_mul(i.g, R, kk, NULL, NULL, ctx()); EC_POINT_get_affine_coordinates(i.g, R, r, NULL, ctx()); EC_POINT_free(R);
+        BN_nnmod(r, r, i.n, ctx()); if (BN_is_zero(r)) continue;
+        BN_mod_mul(s, r, d, i.n, ctx()); BN_mod_add(s, s, e, i.n, ctx());           // e + r*d   (BN_mod_add reduces e first)
+        BN_free(ki); ki = BN_mod_inverse(NULL, kk, i.n, ctx()); if (!ki) die("nonce inverse");
+        BN_mod_mul(s, s, ki, i.n, ctx()); if (BN_is_zero(s)) continue;
+        ok = true;
+    }
+    if (ok) { out.r = frombn(r); out.s = frombn(s); }
+    BN_free(kk); BN_free(nm1); BN_free(r); BN_free(s); BN_free(e); BN_free(ki);
+    return ok;
+}
+bool der_integer_strict(const B &tlv, B &mag, bool &neg) {
+    const unsigned char *p = tlv.data(); ASN1_INTEGER *a = d2i_ASN1_INTEGER(NULL, &p, (long) tlv.size());
+    if (!a) { ERR_clear_error(); return false; }
+    bool ok = p == tlv.data() + tlv.size();
+    unsigned char *d = NULL; int n = i2d_ASN1_INTEGER(a, &d);
+    if (n <= 0 || (size_t) n != tlv.size() || memcmp(d, tlv.data(), tlv.size()) != 0) ok = false;
+    if (d) OPENSSL_free(d);
+    BIGNUM *b = ASN1_INTEGER_to_BN(a, NULL); ASN1_INTEGER_free(a);
+    if (!b) { ERR_clear_error(); return false; }
+    neg = BN_is_negative(b) != 0; mag = frombn(b); BN_free(b); ERR_clear_error();
+    return ok;
+}
 bool ecdsa_special(const Ec *k, int kind, const B &tsel, const B &rsel, B &digest, Sig &out) {
     CurveInfo &i = ci(k->c); const BIGNUM *d = EC_KEY_get0_private_key(k->k);
     unsigned nbits = curve_order_bits(k->c); size_t dlen = nbits / 8;   // digest length with 8*dlen <= nbits: no truncation ambiguity
